@@ -292,8 +292,18 @@ fn respell(p: &Program, rng: &mut Rng) -> Program {
 fn permute(p: &Program, rng: &mut Rng) -> Program {
     let mut q = p.clone();
     for m in q.modules.iter_mut() {
-        let first = m.stmts.iter().position(|s| !matches!(s, Stmt::Use { .. })).unwrap_or(m.stmts.len());
-        rng.shuffle(&mut m.stmts[first..]);
+        // `use` statements keep their relative order (which of two faulty imports is compiled first follows it);
+        // they are re-inserted at random positions among the shuffled rest
+        let uses: Vec<Stmt> = m.stmts.iter().filter(|s| matches!(s, Stmt::Use { .. })).cloned().collect();
+        let mut rest: Vec<Stmt> = m.stmts.iter().filter(|s| !matches!(s, Stmt::Use { .. })).cloned().collect();
+        rng.shuffle(&mut rest);
+        let mut at = 0;
+        for u in uses {
+            at = rng.range(at, rest.len());
+            rest.insert(at, u);
+            at += 1;
+        }
+        m.stmts = rest;
     }
     q
 }
